@@ -43,6 +43,16 @@ CLAIMS = {
             "(this rule exposed the FactorWithGuess defect, repaired by fix 73b1dbc).",
             "Not decided: the equal-high-and-low-bits region (r, s) and the prime-gap tolerance of guesses (runtime quantities); Lehman's completeness argument is trusted number theory.",
             "DESIGN.md section 3 C04"),
+    "C20": ("proof", "bit-width abstract interpretation over symbolic path terms with residue splitting of n (n = c*q + r), entropy-reachability and effect analysis",
+            "For each of the 13 concrete RandomBits bodies, every path to return and every residue r of n modulo the lcm of the moduli the body tests, "
+            "an upper bound on bit_length(result) is derived from byte lengths (os.urandom/digest/bytes sizes, equal-size stores, slices, length facts, "
+            "append counts of range loops), shifts and masks, and compared with n = c*q + r: proves result < 2^n for every n >= 1. A byte mask only "
+            "counts when it is on the most-significant byte for the byte order of the following from_bytes - this is what exposes the TruncLcgRand defect "
+            "(known finding, pinned by rng_test.testTruncLcg). Purity: entropy sources are reachable only under `seed is None`/falsy seed, random.getrandbits "
+            "is dominated by random.seed(seed), no instance state is written; Java/truncated-LCG constants and update shape; registry.",
+            "Trusted: from_bytes/to_bytes/slice semantics, sizes returned by os.urandom/digest/Generator.bytes, getrandbits(n) < 2^n. "
+            "Not decided: that the emulations reproduce the original bit streams beyond constants and update shape.",
+            "DESIGN.md section 3 C20"),
     "C16": ("other", "typestate / who-may-write analysis over the AST + symbolic path walk of all 24 Check bodies",
             "Decides, for every path of every Check body in the package, that each loop iteration records exactly one "
             "result entry on that iteration's artifact with an entry created in the same iteration, that the positive flag, "
